@@ -94,7 +94,7 @@ CHECKS.update({
 
 CHECKS.update({
  "C13": ("round-trip property testing: brush prints each value in 14 quoting forms, brush and bash eval the text, and the recreated value/keys/attributes must equal the original; exhaustive over short strings plus random long ones",
-         "all strings up to length 2 (quick, 1641) / 3 (thorough, 65641) over a 40-character alphabet of quoting-relevant characters plus 4k/60k random strings of 3-40 characters, each through printf %q (bare and in a longer format), ${v@Q}, ${v@A}, declare -p (scalar, exported, sparse indexed array, associative key and element), set, export -p, alias, trap -p, xtrace of an argument and of an assignment; read back by brush and by bash 5.2.15 and compared byte-wise (alias/trap: the reader's listing after eval vs after defining the original directly). Exhaustive up to the bound, exploration beyond.",
+         "all strings up to length 2 (quick, 1641) / 3 (thorough, 65641) over a 40-character alphabet of quoting-relevant characters plus 4k/60k random strings of 1-30 pieces (characters of the alphabet, other printable and control characters, and syntax-shaped pieces such as `{,}`, `~/`, `a=b`, `$(x)`), each through printf %q (bare and in a longer format), ${v@Q}, ${v@A}, declare -p (scalar, exported, sparse indexed array, associative key and element), set, export -p, alias, trap -p, xtrace of an argument and of an assignment; read back by brush and by bash 5.2.15 and compared byte-wise (alias/trap: the reader's listing after eval vs after defining the original directly). Exhaustive up to the bound, exploration beyond.",
          "a mismatch counts only if the same form and value round-trips with bash on both sides; values are valid UTF-8 without NUL; bash 5.2.15 is the second reader", "DESIGN.md §3 C13 (design) and §8 (as built)"),
 })
 
